@@ -164,6 +164,47 @@ Check thomas_exact_or_refuses_Qc : forall (t : tridiag AQ) (r : list AQ),
   (tsolve t r = Panic Guard /\ exists k, k < tn t /\ thomas_pivot t k = Ok zero).
 Print Assumptions thomas_exact_or_refuses_Qc.
 
+(* ---- T / s and T /= s over a field: entrywise division, or the arithmetic's own division-by-zero panic ---- *)
+Theorem tridiag_div_scalar : forall (A : Arith) (FL : FieldLaws A) (t : tridiag A) (s : A), wfT t ->
+  (s <> zero ->
+     exists c, tdiv t s = Ok c /\ tdiv_assign_s t s = Ok c /\ wfT c /\ tn c = tn t /\
+               forall i j, dense c i j = (dense t i j * fl_inv A FL s)%A) /\
+  (s = zero -> 1 <= tn t -> tdiv t s = Panic DivZero /\ tdiv_assign_s t s = Panic DivZero).
+Proof. intros A FL t s. exact (tdiv_spec_lemma FL t s). Qed.
+Check tridiag_div_scalar : forall (A : Arith) (FL : FieldLaws A) (t : tridiag A) (s : A), wfT t ->
+  (s <> zero ->
+     exists c, tdiv t s = Ok c /\ tdiv_assign_s t s = Ok c /\ wfT c /\ tn c = tn t /\
+               forall i j, dense c i j = (dense t i j * fl_inv A FL s)%A) /\
+  (s = zero -> 1 <= tn t -> tdiv t s = Panic DivZero /\ tdiv_assign_s t s = Panic DivZero).
+Print Assumptions tridiag_div_scalar.
+Example tridiag_div_scalar_nonvacuous : wfT ex3 /\ q 3 2 <> (zero : AQ) /\ 1 <= tn ex3.
+Proof. unfold wfT; cbn [tn tmain tsub tsup ex3 length]. repeat split; auto. discriminate. Qed.
+
+(* ---- constructors: well-shaped diagonals are stored as given; ill-shaped ones are refused ---- *)
+Theorem tridiag_constructors : forall (A : Arith) (sub main sup : list A) (a b c : A) (n : nat),
+  (1 <= length main -> length sub = length main - 1 -> length sup = length main - 1 ->
+     exists t, with_vecs sub main sup = Ok t /\ wfT t /\ tn t = length main /\
+               tsub t = sub /\ tmain t = main /\ tsup t = sup) /\
+  (1 <= length main -> (length sub <> length main - 1 \/ length sup <> length main - 1) ->
+     with_vecs sub main sup = Panic Guard) /\
+  (1 <= n -> exists t, with_elements a b c n = Ok t /\ wfT t /\ tn t = n /\
+     forall i j, i < n -> j < n -> dense t i j =
+       if i =? j then b else if i =? j + 1 then a else if i + 1 =? j then c else zero).
+Proof. intros A sub main sup a b c n. exact (tridiag_constructors_lemma sub main sup a b c n). Qed.
+Check tridiag_constructors : forall (A : Arith) (sub main sup : list A) (a b c : A) (n : nat),
+  (1 <= length main -> length sub = length main - 1 -> length sup = length main - 1 ->
+     exists t, with_vecs sub main sup = Ok t /\ wfT t /\ tn t = length main /\
+               tsub t = sub /\ tmain t = main /\ tsup t = sup) /\
+  (1 <= length main -> (length sub <> length main - 1 \/ length sup <> length main - 1) ->
+     with_vecs sub main sup = Panic Guard) /\
+  (1 <= n -> exists t, with_elements a b c n = Ok t /\ wfT t /\ tn t = n /\
+     forall i j, i < n -> j < n -> dense t i j =
+       if i =? j then b else if i =? j + 1 then a else if i + 1 =? j then c else zero).
+Print Assumptions tridiag_constructors.
+Example tridiag_constructors_nonvacuous :
+  1 <= length (tmain ex3) /\ length (tsub ex3) = length (tmain ex3) - 1 /\ length (tsup ex3) = length (tmain ex3) - 1.
+Proof. cbn. auto. Qed.
+
 (* ---- det: the three-term continuant recurrence, for every n >= 1 and ANY arithmetic (floats included) ----
    Full statement planned in DESIGN (P3):  tdet t = Ok (\det of the dense twin)  (mathcomp).
    Proved here: tdet t is the continuant K n of the three diagonals, K being pinned by its defining
@@ -176,7 +217,7 @@ Theorem tridiag_det_is_det_partial : forall (A : Arith) (t : tridiag A), wfT t -
   continuant t 1 = (nth 0 (tmain t) zero * one)%A /\
   forall k, continuant t (S (S k)) =
     (nth (S k) (tmain t) zero * continuant t (S k) - nth k (tsub t) zero * nth k (tsup t) zero * continuant t k)%A.
-Proof. intros A t W Hn. split; [exact (tdet_continuant t W Hn)|]. repeat split. Qed.
+Proof. intros A t. exact (tdet_continuant_lemma t). Qed.
 Check tridiag_det_is_det_partial : forall (A : Arith) (t : tridiag A), wfT t -> 1 <= tn t ->
   tdet t = Ok (continuant t (tn t)) /\
   continuant t 0 = one /\
